@@ -16,7 +16,7 @@ ASSUMPTIONS = [
 
 CONSTRUCTS = ["{% tag a=\"1 2\" %}", "{{ var | f }}", "{# a comment #}", "<!-- html comment -->", "`code span here`",
               "[link text](http://x.y/z)", "<span class=\"a b\">", "{% t %}{% /t %}", "<!-- a --><!-- /a -->",
-              "![alt text](img.png \"T\")"]
+              "![alt text](img.png \"T\")", "`` `a b` ``", "`` x = `date +%s` ``"]
 WORDS = ["aa", "bbb", "cccc", "d", "eeeeee"]
 
 
@@ -48,14 +48,20 @@ def bounded(tier, seed):
                 if flat != re.sub(r"\s+", " ", text).strip() and "\\" not in out:
                     viol.append({"clause": "spacing_kept", "input": {"text": text, "options": {"width": w, "semantic": sem}}, "got": out})
     # tag lines stay alone on their own unindented line; enclosed lists/tables stay lists/tables with blank lines
-    for t_open, t_close in (("{% f %}", "{% /f %}"), ("<!-- f -->", "<!-- /f -->"), ("{# f #}", "{# /f #}")):
-        for inner in ("some prose that is long enough to wrap at narrow widths", "- i1\n- i2", "| a | b |\n|---|---|\n| 1 | 2 |", "1. x\n2. y"):
-            for w in (88, 20, 5):
-                for sem in (False, True):
-                    text = "%s\n%s\n%s\n" % (t_open, inner, t_close)
+    # (an earlier fenced code block, with an indented closing fence, must not disturb what follows it)
+    PREFIXES = ("", "- item\n\n  ```\n  code\n  ```\n\n", " ~~~\ncode {% x %}\n ~~~\n\n", "```\n{% f %}\n- no list\n```\n\npara\n\n")
+    for t_open, t_close in (("{% f %}", "{% /f %}"), ("<!-- f -->", "<!-- /f -->"), ("{# f #}", "{# /f #}"), ("{% if x %}", "{% endif %}"),
+                            ("<!-- f -->", "<!-- end -->")):
+        for inner, prefix, w, sem in itertools.product(
+                ("some prose that is long enough to wrap at narrow widths", "- i1\n- i2", "| a | b |\n|---|---|\n| 1 | 2 |", "1. x\n2. y"),
+                PREFIXES, (88, 20, 5), (False, True)):
+                    text = "%s%s\n%s\n%s\n" % (prefix, t_open, inner, t_close)
                     out = P.fmt(text, width=w, semantic=sem)
                     evals += 1
                     lines = out.split("\n")
+                    if prefix:          # only the part after the prefix is judged
+                        k = max(i for i, l in enumerate(lines) if l.strip() in ("```", "~~~", "para")) + 1
+                        lines = lines[k:]
                     if t_open not in lines or t_close not in lines:
                         viol.append({"clause": "tag_line_alone", "input": {"text": text, "options": {"width": w, "semantic": sem}}, "got": out})
                     if inner[0] in "-|1":
@@ -65,9 +71,10 @@ def bounded(tier, seed):
                             viol.append({"clause": "block_in_tags_separated", "input": {"text": text, "options": {"width": w, "semantic": sem}}, "got": out})
     return {"evaluations": evals, "distinct_nontrivial": len(distinct), "violations": viol,
             "samples": [{"text": " ".join([WORDS[0], CONSTRUCTS[0], WORDS[2], CONSTRUCTS[4]])}],
-            "rule": "seeded top-level paragraphs of 2-7 tokens mixing 5 words with 11 atomic constructs x widths (quick {1,3,5,8,12,20}, "
+            "rule": "seeded top-level paragraphs of 2-7 tokens mixing 5 words with 13 atomic constructs (incl. multi-backtick code spans holding backticks) x widths (quick {1,3,5,8,12,20}, "
                     "thorough 1..20) x both modes: every construct lies within one output line and the whitespace-collapsed text is "
-                    "unchanged; 3 tag kinds x {prose, list, table, ordered list} x widths {88,20,5} x both modes: the tag lines stay alone "
+                    "unchanged; 5 tag pairs x {prose, list, table, ordered list} x 4 preceding contexts (none, fenced code in a list item / with an "
+                    "indented closing fence, code holding tag lines) x widths {88,20,5} x both modes: the tag lines stay alone "
                     "and block content is separated by blank lines; distinct = distinct outputs",
             "exhaustive": False, "bound": "%d paragraphs" % n}
 
